@@ -69,7 +69,9 @@ LLC::LLC(const uint8_t* buffer, uint32_t total_sz) {
 		// TODO: Create information fields if corresponding.
 	}
 	else {
-		type((Format)(*stream.pointer() & 0x03));
+		// Information frames have the lowest bit unset (the second one 
+		// belongs to the send sequence number), supervisory ones use 01
+		type((*stream.pointer() & 0x01) ? LLC::SUPERVISORY : LLC::INFORMATION);
 		control_field_length_ = 2;
 		stream.read(control_field.info);
 	}
